@@ -31,7 +31,7 @@ use crate::{
 // ---------------------------------------------------------------------------------------------------------------
 // (a) op histories, Ristretto (the instantiation that owns the process-wide cells)
 
-pub const OPS: [&str; 11] = [
+pub const OPS: [&str; 13] = [
     "params(2,1)",
     "params(2,2)",
     "params(4,1)",
@@ -41,6 +41,8 @@ pub const OPS: [&str; 11] = [
     "verify-invalid",
     "seeded-recover",
     "batch2",
+    "batch-malformed2",
+    "batch-undecodable2",
     "pedersen6",
     "drop-all",
 ];
@@ -155,6 +157,22 @@ fn run_op<P: G>(op: &str, kept: &mut Vec<RangeParameters<P>>) -> Vec<u8> {
             let pc = lib_prove(&bc, &contexts()[3], &mut HRng::chacha(5)).unwrap();
             verify_bytes(&[ba.statement.clone(), bc.statement.clone()], &[pa, pc], &[CTX_A, contexts()[3]], VerifyAction::VerifyOnly)
         },
+        "batch-malformed2" | "batch-undecodable2" => {
+            // a batch that is abandoned half way: the second member has the wrong round count / an undecodable point
+            let wa = Wit::default_for(&cfg_a);
+            let ba = build::<P>(&cfg_a, &wa).unwrap();
+            let pa = lib_prove(&ba, &CTX_A, &mut HRng::chacha(4)).unwrap();
+            let mut rp = ref_proof_of(&pa).unwrap();
+            if op == "batch-malformed2" {
+                let (l, r) = (rp.l[0], rp.r[0]);
+                rp.l.push(l);
+                rp.r.push(r);
+            } else {
+                rp.a1 = [0xffu8; 32];
+            }
+            let bad = P::from_bytes(&refbp::ref_encode(&rp)).unwrap();
+            verify_bytes(&[ba.statement.clone(), ba.statement.clone()], &[pa, bad], &[CTX_A, CTX_A], VerifyAction::VerifyOnly)
+        },
         "pedersen6" => {
             let pc = P::pc_gens(6);
             let mut all = Vec::new();
@@ -260,16 +278,28 @@ struct Shared<P: G> {
     invalid: (tari_bulletproofs_plus::range_statement::RangeStatement<P>, Vec<u8>),
 }
 
-fn shared_setup<P: G>() -> Arc<Shared<P>> {
+/// A valid proof for the shared-parameter harness, made over a separate parameter object
+fn shared_proof_bytes<P: G>() -> Vec<u8> {
+    let cfg = Cfg::new(2, 1, 2, 1);
+    let wit = Wit::default_for(&cfg);
+    let other = P::params(cfg.n, cfg.c, P::pc_gens(cfg.d)).unwrap();
+    let commitments = commitments_for(other.pc_gens(), &wit).unwrap();
+    let st_other = P::statement(other, commitments, wit.promises.clone(), None).unwrap();
+    let witness = witness_for(&wit).unwrap();
+    let mut t = CTX_A.transcript();
+    let proof = P::prove(&mut t, &st_other, &witness, &mut HRng::chacha(6)).unwrap();
+    P::to_bytes(&proof)
+}
+
+fn shared_setup<P: G>(bytes: &[u8]) -> Arc<Shared<P>> {
     let cfg = Cfg::new(2, 1, 2, 1);
     let params = P::params(cfg.n, cfg.c, P::pc_gens(cfg.d)).unwrap();
     let wit = Wit::default_for(&cfg);
     let commitments = commitments_for(params.pc_gens(), &wit).unwrap();
     let st = P::statement(params.clone(), commitments.clone(), wit.promises.clone(), None).unwrap();
-    let witness = witness_for(&wit).unwrap();
-    let mut t = CTX_A.transcript();
-    let proof = P::prove(&mut t, &st, &witness, &mut HRng::chacha(6)).unwrap();
-    let bytes = P::to_bytes(&proof);
+    // the proof to verify is made (once) over a separate parameter object, so that the shared one is never used before
+    // the schedule starts (its first proving / verifying use is part of the explored interleavings)
+    let bytes = bytes.to_vec();
     let mut cs = commitments.clone();
     cs[0] = cs[0].g_add(params.h_base());
     let bad = P::statement(params.clone(), cs, wit.promises.clone(), None).unwrap();
@@ -319,39 +349,56 @@ fn shared_schedule_case<P: G>(ops: Vec<usize>, bound: usize) -> Box<dyn Case> {
     case(format!("{}/shared-params/{}", P::NAME, name.join("||")), move |_v| {
         fg::clear_intern();
         let mut res = CaseResult::new("identical");
-        let sh = shared_setup::<P>();
-        // sequential baseline: each op alone (unmanaged thread, same shared objects)
-        let baseline: Vec<Vec<u8>> = ops.iter().map(|k| shared_op::<P>(SOPS[*k], &sh)).collect();
+        // sequential baseline: each op alone on a fresh shared parameter object, then the probe calls
+        const PROBES: [&str; 2] = ["proveB", "verify-valid"];
+        let proof_bytes = shared_proof_bytes::<P>();
+        let baseline: Vec<Vec<u8>> = ops
+            .iter()
+            .map(|k| SOPS[*k])
+            .chain(PROBES)
+            .map(|op| {
+                let sh = shared_setup::<P>(&proof_bytes);
+                shared_op::<P>(op, &sh)
+            })
+            .collect();
         let ops2 = ops.clone();
-        let sh2 = sh.clone();
-        let make = move || -> Vec<Body> {
-            ops2.iter()
+        let intern = fg::intern_handle();
+        // one execution: fresh shared objects, the racing ops under the schedule, then the probes sequentially on the
+        // same objects ("no call observes state left behind by another")
+        let run_one = |prefix: &[usize]| -> sched::Execution {
+            fg::set_intern(intern.clone());
+            let sh = shared_setup::<P>(&proof_bytes);
+            let bodies: Vec<Body> = ops2
+                .iter()
                 .map(|k| {
-                    let sh = sh2.clone();
+                    let sh = sh.clone();
                     let op = SOPS[*k];
                     Box::new(move || shared_op::<P>(op, &sh)) as Body
                 })
-                .collect()
+                .collect();
+            let mut x = sched::run_execution(bodies, prefix, true, Some(intern.clone()));
+            for op in PROBES {
+                x.results.push(catch(|| shared_op::<P>(op, &sh)));
+            }
+            x
         };
         // replay determinism of the harness itself
-        let intern = fg::intern_handle();
-        let x0 = sched::run_execution(make(), &[], true, Some(intern.clone()));
-        let x1 = sched::run_execution(make(), &x0.choices(), true, Some(intern.clone()));
+        let x0 = run_one(&[]);
+        let x1 = run_one(&x0.choices());
         if x0.results != x1.results || x0.choices() != x1.choices() {
             res.machinery_error("replaying the default schedule is not deterministic");
             return res;
         }
         let stats = sched::explore(
             bound,
-            1,
-            |prefix| Ok(sched::run_execution(make(), prefix, true, Some(intern.clone()))),
+            2,
+            |prefix| Ok(run_one(prefix)),
             |x| {
                 for (t, r) in x.results.iter().enumerate() {
+                    let name = if t < ops.len() { SOPS[ops[t]].to_string() } else { format!("probe {} after the schedule", PROBES[t - ops.len()]) };
                     match r {
-                        Err(p) => return Err(format!("thread {} ({}) panicked: {}", t, SOPS[ops[t]], p)),
-                        Ok(b) if *b != baseline[t] => {
-                            return Err(format!("thread {} ({}) result differs from the same call made alone", t, SOPS[ops[t]]))
-                        },
+                        Err(p) => return Err(format!("thread {} ({}) panicked: {}", t, name, p)),
+                        Ok(b) if *b != baseline[t] => return Err(format!("call {} ({}) result differs from the same call made alone", t, name)),
                         _ => {},
                     }
                 }
@@ -539,8 +586,8 @@ fn source_scan() -> Value {
 }
 
 pub fn run(rep: &mut Report) {
-    rep.rule = "(a) every sequence over the 11-op alphabet {build params x3, prove A/B, verify valid/invalid, seeded recover, batch of two, \
-                pedersen gens, drop-all} of length <= 3 (thorough 4), one fresh process per sequence, each op's serialised result against \
+    rep.rule = "(a) every sequence over the 13-op alphabet {build params x3, prove A/B, verify valid/invalid, seeded recover, batch of two, batch abandoned at \
+                its second member (wrong round count / undecodable point), pedersen gens, drop-all} of length <= 3 (thorough 4), one fresh process per sequence, each op's serialised result against \
                 its result alone in a fresh process (and a second fresh process); (b) every pair (thorough: also triples) of ops {prove A, \
                 prove B, verify valid, verify invalid, clone+drop params, build other capacity} on threads sharing one parameter object, \
                 every schedule with <= 2 (thorough 3) preemptions over the merlin / group-backend scheduling points, on F and Ristretto; \
@@ -549,6 +596,9 @@ pub fn run(rep: &mut Report) {
     rep.assume("interleavings inside once_cell, Arc and curve25519-dalek are those crates' contracts; scheduling points are the group, transcript and once-cell seams");
     let thorough = rep.tier.thorough();
     sched::install_hooks();
+    // quick: scheduling points at challenge draws, transcript-RNG finalisation, the once-cells and the shared
+    // precomputed table; thorough: at every transcript and group operation
+    sched::set_fine(thorough);
     // the cached arrays of this process are initialised before any in-process schedule exploration
     let _ = create_pedersen_gens_with_extension_degree(ext(6));
     let scan = source_scan();
@@ -588,7 +638,9 @@ pub fn run(rep: &mut Report) {
         }
     }
     rep.validated += OPS.len() as u64;
+    let t0 = rep.wall();
     rep.explore("C18", history_cases(if thorough { 4 } else { 3 }, Arc::new(baseline)));
+    let t1 = rep.wall();
 
     // (b)
     let bound = if thorough { 3 } else { 2 };
@@ -607,9 +659,13 @@ pub fn run(rep: &mut Report) {
         }
     }
     rep.explore("C18", cases);
+    let t2 = rep.wall();
 
     // (c)
     sched::explore_first_use(rep, "C18", bound, thorough);
+    let t3 = rep.wall();
+    rep.note("phase_wall_s", json!({"baseline": t0, "histories": t1 - t0, "shared_param_schedules": t2 - t1, "first_use_schedules": t3 - t2}));
+    println!("[C18] phases: baseline {:.1}s histories {:.1}s shared-params schedules {:.1}s first-use schedules {:.1}s", t0, t1 - t0, t2 - t1, t3 - t2);
     rep.expect_outcome("identical");
     rep.expect_sub_outcome("schedules-explored");
 }
